@@ -255,7 +255,41 @@ func NormalizeFrequencies(freqs []int, alphabet []int, totalFreq, scale int) (in
 		}
 	}
 
-	freqs[idxMax] = max(freqs[idxMax]-delta, 1)
+	if delta > 0 {
+		if inc > 0 {
+			// Sum still too low: give the remainder to the highest frequency
+			freqs[idxMax] += delta
+		} else {
+			// Sum still too high: take the remainder from the highest frequency first,
+			// then from any frequency above 1 (there is always one since scale >= alphabetSize)
+			d := min(delta, freqs[idxMax]-1)
+			freqs[idxMax] -= d
+			delta -= d
+
+			for delta > 0 {
+				adjustments := 0
+
+				for _, idx := range alphabet[0:alphabetSize] {
+					if freqs[idx] <= 1 {
+						continue
+					}
+
+					freqs[idx]--
+					adjustments++
+					delta--
+
+					if delta == 0 {
+						break
+					}
+				}
+
+				if adjustments == 0 {
+					break
+				}
+			}
+		}
+	}
+
 	return alphabetSize, nil
 }
 
